@@ -32,6 +32,8 @@ import (
 	"sync/atomic"
 	"time"
 
+	"github.com/twmb/franz-go/pkg/kbin"
+
 	"verif/checks/c15/defs"
 
 	"verif.local/ev"
@@ -333,6 +335,211 @@ func hugeInputs(e *defs.Enc, m defs.Mark) (out []hugeInput, skipped int) {
 	return out, skipped
 }
 
+// ---- stage (e): every arm of the unrolled variable-length integer decoders
+
+func maxVarLen(form string) int {
+	if form == "varlong" {
+		return 10
+	}
+	return 5
+}
+
+type armVariant struct {
+	in   []byte
+	off  int // offset of the rewritten site
+	n    int // its new length
+	what string
+}
+
+// armVariants rewrites one variable-length integer of a valid encoding so
+// that it occupies every encodable byte count: the same value padded with
+// zero continuation groups to each length up to the maximum (5 for 32 bit,
+// 10 for 64 bit), the maximum length with an overflowing last byte, and
+// max+1 continuation bytes.
+func armVariants(b []byte, m defs.Mark, tagLoops bool) []armVariant {
+	mx := maxVarLen(m.Form)
+	splice := func(site []byte, what string) armVariant {
+		in := append([]byte{}, b[:m.Off]...)
+		in = append(in, site...)
+		in = append(in, b[m.Off+m.Len:]...)
+		return armVariant{in, m.Off, len(site), fmt.Sprintf("%s@%d %s", m.Form, m.Off, what)}
+	}
+	pad := func(L int) []byte {
+		site := append([]byte{}, b[m.Off:m.Off+m.Len]...)
+		site[len(site)-1] |= 0x80
+		for len(site) < L-1 {
+			site = append(site, 0x80)
+		}
+		return append(site, 0x00)
+	}
+	var out []armVariant
+	for L := m.Len + 1; L <= mx; L++ {
+		out = append(out, splice(pad(L), fmt.Sprintf("padded to %d bytes", L)))
+	}
+	full := pad(mx)
+	if m.Len == mx {
+		full = append([]byte{}, b[m.Off:m.Off+m.Len]...)
+	}
+	lasts, conts := []byte{0x10, 0x02, 0x7f}, []byte{0x80, 0x81, 0xff}
+	if tagLoops {
+		// in units with tag sections a shifted parse would iterate these as
+		// tag counts of 2^27 and more (see the guard in stage (e))
+		lasts, conts = []byte{0x10, 0x02}, []byte{0x80}
+	}
+	for _, last := range lasts {
+		site := append([]byte{}, full...)
+		site[mx-1] = last
+		out = append(out, splice(site, fmt.Sprintf("%d bytes, last byte %02x", mx, last)))
+	}
+	for _, c := range conts {
+		site := make([]byte, mx+1)
+		for i := range site {
+			site[i] = c
+		}
+		out = append(out, splice(site, fmt.Sprintf("%d x %02x", mx+1, c)))
+	}
+	return out
+}
+
+// armBases are the valid encodings whose integers stage (e) rewrites: the
+// two base valuations plus, for every varint/varlong value field, values
+// that really need each byte count. big holds encodings with real payloads
+// behind 2- and 3-byte varint lengths; they only get prefixes and flips.
+func armBases(u *defs.Unit) (small, big []*defs.Enc) {
+	small = baseEncodings(u)
+	if u.EffVersion != nil {
+		return
+	}
+	base := u.Bases()[1]
+	enc := func(v *defs.SVal) *defs.Enc {
+		defs.FixDerived(v, u.Version)
+		e, err := defs.Encode(u.S, v, u.Version)
+		if err != nil {
+			ev.InfraError("interpreter cannot encode %s: %v", u, err)
+		}
+		return e
+	}
+	for _, p := range defs.Paths(u.S) {
+		if p.T == nil {
+			continue
+		}
+		switch p.T.Kind {
+		case defs.KVarint, defs.KVarlong:
+			groups := 4
+			if p.T.Kind == defs.KVarlong {
+				groups = 9
+			}
+			for k := 1; k <= groups; k++ {
+				v := int64(1) << (7*k - 1) // zig-zag needs k+1 bytes
+				small = append(small, enc(defs.Apply(base.V, p, v)), enc(defs.Apply(base.V, p, -v-1)))
+			}
+			if p.T.Kind == defs.KVarint {
+				small = append(small, enc(defs.Apply(base.V, p, int64(1<<31-1))), enc(defs.Apply(base.V, p, int64(-1<<31))))
+			} else {
+				small = append(small, enc(defs.Apply(base.V, p, int64(1<<63-1))), enc(defs.Apply(base.V, p, int64(-1<<63))))
+			}
+		case defs.KVarintString:
+			for _, n := range []int{64, 8192} {
+				big = append(big, enc(defs.Apply(base.V, p, defs.Str{S: strings.Repeat("x", n)})))
+			}
+		case defs.KVarintBytes:
+			for _, n := range []int{64, 8192} {
+				big = append(big, enc(defs.Apply(base.V, p, defs.Byt{B: make([]byte, n)})))
+			}
+		case defs.KArray:
+			if p.T.VarintLen {
+				a := &defs.Arr{E: make([]any, 64)}
+				for i := range a.E {
+					a.E[i] = defs.DefaultOf(p.T.Elem)
+				}
+				big = append(big, enc(defs.Apply(base.V, p, a)))
+			}
+		}
+	}
+	return
+}
+
+// armFullLimit: variants of encodings up to this size get every longer
+// prefix and a continuation-bit flip at every position; larger ones get the
+// prefixes that end inside or up to 8 bytes after the rewritten integer and
+// flips inside it.
+const armFullLimit = 400
+
+// shiftedCount is what Reader.Uvarint would return at off (0 when it fails:
+// truncated, or a fifth byte above 0x0f).
+func shiftedCount(in []byte, off int) int64 {
+	var v uint64
+	for i := 0; i < 5 && off+i < len(in); i++ {
+		b := in[off+i]
+		if i == 4 {
+			if b > 0x0f {
+				return 0
+			}
+			return int64(v | uint64(b)<<28)
+		}
+		v |= uint64(b&0x7f) << (7 * i)
+		if b < 0x80 {
+			return int64(v)
+		}
+	}
+	return 0
+}
+
+// armMaxShiftedClaim: see the guard in stage (e).
+const armMaxShiftedClaim = 1 << 20
+
+// kbinDirect drives the public copy of the primitives (pkg/kbin) directly:
+// every prefix of every pattern of k continuation bytes followed by a
+// terminal byte, k = 0..11, through the unrolled functions and the Reader
+// methods that call them.
+func kbinDirect(report func(problem)) (evals int64) {
+	run := func(name string, in []byte, f func()) {
+		evals++
+		defer func() {
+			if r := recover(); r != nil {
+				report(problem{"kbin:" + name + ":panic", fmt.Sprintf("pkg/kbin %s panics on %s: %v", name, hexCap(in), r),
+					map[string]any{"type": "kbin." + name, "version": 0, "mode": "direct", "stage": "kbin-direct", "kind": "panic", "input_hex": hexCap(in), "panic": fmt.Sprint(r)}})
+			}
+		}()
+		f()
+	}
+	check := func(name string, in []byte, n int) {
+		if n > len(in) {
+			report(problem{"kbin:" + name + ":overread", fmt.Sprintf("pkg/kbin %s reports %d bytes consumed from %d-byte input %s", name, n, len(in), hexCap(in)),
+				map[string]any{"type": "kbin." + name, "version": 0, "mode": "direct", "stage": "kbin-direct", "kind": "overread", "input_hex": hexCap(in)}})
+		}
+	}
+	try := func(in []byte) {
+		run("Uvarint", in, func() { _, n := kbin.Uvarint(in); check("Uvarint", in, n) })
+		run("Varint", in, func() { _, n := kbin.Varint(in); check("Varint", in, n) })
+		run("Varlong", in, func() { _, n := kbin.Varlong(in); check("Varlong", in, n) })
+		run("Reader.Uvarint", in, func() { b := kbin.Reader{Src: in}; b.Uvarint(); b.Complete() })
+		run("Reader.Varint", in, func() { b := kbin.Reader{Src: in}; b.Varint(); b.Complete() })
+		run("Reader.Varlong", in, func() { b := kbin.Reader{Src: in}; b.Varlong(); b.Complete() })
+		run("Reader.VarintBytes", in, func() { b := kbin.Reader{Src: in}; b.VarintBytes(); b.Complete() })
+		run("Reader.VarintArrayLen", in, func() { b := kbin.Reader{Src: in}; b.VarintArrayLen(); b.Complete() })
+		run("Reader.CompactArrayLen", in, func() { b := kbin.Reader{Src: in}; b.CompactArrayLen(); b.Complete() })
+		run("Reader.CompactNullableString", in, func() { b := kbin.Reader{Src: in}; b.CompactNullableString(); b.Complete() })
+	}
+	for _, c := range []byte{0x80, 0x81, 0xff} {
+		for k := 0; k <= 11; k++ {
+			for _, t := range []int{-1, 0x00, 0x01, 0x02, 0x0f, 0x10, 0x7f} {
+				in := make([]byte, k, k+1)
+				for i := range in {
+					in[i] = c
+				}
+				if t >= 0 {
+					in = append(in, byte(t))
+				}
+				for n := 0; n <= len(in); n++ {
+					try(in[:n:n])
+				}
+			}
+		}
+	}
+	return
+}
+
 func main() {
 	repo := os.Getenv("REPO")
 	if repo == "" {
@@ -355,7 +562,7 @@ func main() {
 	}
 
 	r := ev.New("C16", "exploration")
-	r.Rule("every kmsg decoder (ReadFrom and UnsafeReadFrom of every request/response through RequestForKey/ResponseForKey 0..MaxKey, every stand-alone embedded type, hand written Record and StickyMemberMetadata) at min and max version (quick) / every version (thorough) on: (a) all 65,793 byte strings of length <= 2 (thorough: all strings of length 3 for the 30 types with the fewest fields at their min and max version, see three_byte_rule); (b) every proper prefix of the reference encodings of the two C15 base valuations (all-default, all-populated); (c) every single-byte substitution from {00,01,7f,80,fe,ff} at every position of those encodings; (d) allocation pass, one goroutine: every byte of every length prefix (array/string/bytes length, tag count, tag size, struct marker) of those encodings replaced by 7f/fe/ff and every whole prefix replaced by a ladder of claims 0x7f, 0xff, 0xfff .. 0x7fffffff (and the negative extremes), smallest claim first; the same inputs also go through the panic and round-trip oracles. Distinct = (type, version, stage, decoder, outcome) classes; distinct structured inputs counted separately")
+	r.Rule("every kmsg decoder (ReadFrom and UnsafeReadFrom of every request/response through RequestForKey/ResponseForKey 0..MaxKey, every stand-alone embedded type, hand written Record and StickyMemberMetadata) at min and max version (quick) / every version (thorough) on: (a) all 65,793 byte strings of length <= 2 (thorough: all strings of length 3 for the 30 types with the fewest fields at their min and max version, see three_byte_rule); (b) every proper prefix of the reference encodings of the two C15 base valuations (all-default, all-populated); (c) every single-byte substitution from {00,01,7f,80,fe,ff} at every position of those encodings; (d) allocation pass, one goroutine: every byte of every length prefix (array/string/bytes length, tag count, tag size, struct marker) of those encodings replaced by 7f/fe/ff and every whole prefix replaced by a ladder of claims 0x7f, 0xff, 0xfff .. 0x7fffffff (and the negative extremes), smallest claim first; the same inputs also go through the panic and round-trip oracles; (e) every arm of the unrolled varint/varlong decoders: in the reference encodings of the two bases and of values that need each byte count in every varint/varlong field, every variable-length integer (compact lengths, tag keys/counts/sizes, varint lengths, varint/varlong values) is rewritten to every encodable length (same value padded to 2..5 / 2..10 bytes, maximal length with an overflowing last byte, max+1 continuation bytes); each rewrite is run whole, at every strict prefix that reaches into or past the rewritten integer and with the continuation bit flipped at every position (encodings above 400 bytes, and in the quick tier all generated types: prefixes up to 8 bytes past the integer, flips inside it; Record, RecordBatch, MessageV0/V1, Header and StickyMemberMetadata always in full); encodings with real 64/8192-byte payloads behind 2/3-byte varint lengths get all prefixes and site flips; the public copy pkg/kbin is additionally driven directly (Uvarint, Varint, Varlong and the Reader methods on every prefix of k continuation bytes + terminal byte, k=0..11). Distinct = (type, version, stage, decoder, outcome) classes; distinct structured inputs counted separately")
 	r.Assume("allocation is measured as runtime.MemStats.TotalAlloc delta around one decode while no other goroutine of the process runs harness code; a measurement above the bound is repeated three times and the minimum is used",
 		"bound: delta <= 1 KiB * len(input) + 64 KiB (DESIGN.md C16)",
 		"equality after re-encode/re-decode uses the C15 normalisation (nil == empty only where the field is not nullable at that version), floats by bit pattern",
@@ -557,6 +764,80 @@ alloc:
 		}
 	}
 
+	// (e) every arm of the unrolled varint decoders, reached through the types
+	var armVariantsRun, armInputs, armBig, armSkipped int64
+	for _, u := range units {
+		u := u
+		jobs <- func(cn *counters) {
+			inst := u.NewInst()
+			b0 := *cn
+			var nIn int64
+			// A continuation-bit flip or a cut can shift the parse so that any
+			// later offset is read as a tag count, and a claimed count is
+			// iterated even after the input is exhausted (note_decode_time).
+			// In units that have a tag section, inputs in which some offset
+			// reads as a uvarint above 2^20 are therefore left out. Reference
+			// encodings never contain one (their payload bytes are < 0x80);
+			// only the synthetic 0xff runs and 0x7f terminators do.
+			guard := u.S.FlexibleAt >= 0 && (!u.S.TopLevel || u.S.FlexibleIn(u.Version))
+			run := func(in []byte) {
+				if guard {
+					for o := range in {
+						if in[o] >= 0x80 && shiftedCount(in, o) > armMaxShiftedClaim {
+							atomic.AddInt64(&armSkipped, 1)
+							return
+						}
+					}
+				}
+				nIn++
+				try(u, inst, "varint-arms", in, false, cn, report)
+				try(u, inst, "varint-arms", in, true, cn, report)
+			}
+			flip := func(in []byte, i int) {
+				f := append([]byte{}, in...)
+				f[i] ^= 0x80
+				run(f)
+			}
+			small, big := armBases(u)
+			handWritten := !u.S.TopLevel && !u.S.WithVersionField // Record, RecordBatch, MessageV0/V1, Header, StickyMemberMetadata
+			for _, e := range small {
+				for _, m := range e.Sites {
+					for _, v := range armVariants(e.B, m, guard) {
+						atomic.AddInt64(&armVariantsRun, 1)
+						run(v.in)
+						// prefixes up to the site are prefixes of the base: stage (b)
+						hi, flo, fhi := len(v.in), 0, len(v.in)
+						if len(v.in) > armFullLimit || !(thorough || handWritten) {
+							hi, flo, fhi = min(len(v.in), v.off+v.n+9), v.off, v.off+v.n
+						}
+						for n := v.off + 1; n < hi; n++ {
+							run(v.in[:n:n])
+						}
+						for i := flo; i < fhi; i++ {
+							flip(v.in, i)
+						}
+					}
+				}
+			}
+			for _, e := range big {
+				atomic.AddInt64(&armBig, 1)
+				run(e.B)
+				for n := 0; n < len(e.B); n++ {
+					run(e.B[:n:n])
+				}
+				for _, m := range e.Sites {
+					for i := m.Off; i < m.Off+m.Len; i++ {
+						flip(e.B, i)
+					}
+				}
+			}
+			atomic.AddInt64(&armInputs, nIn)
+			note(u, "varint-arms", b0, cn)
+		}
+	}
+	var kbinEvals int64
+	jobs <- func(cn *counters) { kbinEvals = kbinDirect(report); cn.evals += kbinEvals }
+
 	// (a) all byte strings of length <= 2
 	for _, u := range sweepUnits {
 		u := u
@@ -638,6 +919,15 @@ alloc:
 	close(jobs)
 	wg.Wait()
 	lap("parallel_part")
+	r.Set("varint_arm_variants", armVariantsRun)
+	r.Set("varint_arm_inputs", armInputs)
+	r.Set("varint_arm_inputs_left_out_shifted_tag_count_above_2^20", armSkipped)
+	r.Set("varint_arm_big_payload_encodings", armBig)
+	r.Set("kbin_direct_evaluations", kbinEvals)
+	if a, e1 := os.ReadFile(repo + "/pkg/kbin/primitives.go"); e1 == nil {
+		b, e2 := os.ReadFile(repo + "/pkg/kmsg/internal/kbin/primitives.go")
+		r.Set("kbin_copies_identical", e2 == nil && string(a) == string(b))
+	}
 	r.Set("phase_seconds", phase)
 	r.Set("tag_count_claims_above_16383_left_out", tagcountSkipped)
 
